@@ -71,6 +71,31 @@ fn main() {
     }
 
     let ctx = Ctx::new(&id, tier, seed, out);
+    if let Some(path) = replay.clone().filter(|p| p.ends_with(".bin")) {
+        // a saved libFuzzer input: <ID>-fuzz-<target>-<hash>.bin
+        let name = std::path::Path::new(&path).file_name().and_then(|n| n.to_str()).unwrap_or("").to_string();
+        let target = name.split('-').nth(2).unwrap_or("").to_string();
+        let data = std::fs::read(&path).unwrap_or_else(|e| {
+            ctx.say(&format!("cannot read {}: {}", path, e));
+            std::process::exit(2)
+        });
+        if vh::fuzzglue::property_of(&target) != id {
+            ctx.say(&format!("{} is not a fuzz input of property {}", path, id));
+            std::process::exit(2);
+        }
+        match vh::fuzzglue::judge(&target, &data) {
+            Ok(()) => {
+                ctx.cleanup();
+                std::process::exit(0)
+            }
+            Err(v) => {
+                ctx.say(&format!("replay: fuzz target {} FAILS sig={} detail={}", target, v.sig, v.detail));
+                ctx.say(&format!("VIOLATION property={} replay={}", id, path));
+                ctx.cleanup();
+                std::process::exit(1)
+            }
+        }
+    }
     if let Some(path) = replay {
         let text = std::fs::read_to_string(&path).unwrap_or_else(|e| {
             ctx.say(&format!("cannot read replay file {}: {}", path, e));
